@@ -530,7 +530,7 @@ pub fn compare_state(l: &Locale, m: &Loc) -> Vec<Fail> {
         }
     }
     for v in &m.id.variants {
-        if !l.id.has_variant(v.parse().unwrap()) {
+        if !v.parse().map_or(true, |vv| l.id.has_variant(vv)) {
             out.push(fail("has_variant", format!("member {:?} not found", v)));
         }
     }
